@@ -350,6 +350,31 @@ Definition final_ops_w (w : nat) (c : ctrl) (h : list op) : ctrl :=
   fold_left (fun c o => fst (fst (apply_w w c o))) h c.
 Definition final_ops := final_ops_w 98.
 
+(* ---- the first connected (GATT) event of a session ------------------------------
+   BlePairing._async_start_notify.<locals>._async_callback: reads the accessory's GSN g
+   (_update_state_num g), then, once per session, increments it; when the increment reaches
+   MAX_GSN = 65535 the number rolls over to 1 and - BEFORE the new number is recorded - a new
+   broadcast key is requested (await: advertisements can be delivered while the request is in
+   flight; the request can fail, e.g. the accessory disconnects: then the exception leaves the
+   callback and the number stays g under the old key).  A PDUStatusError of the request is
+   only logged: the key is derived and installed anyway (= ReqOk).
+     event_begin i g     everything up to the suspension point (all of it when nothing rolls over)
+     event_end i g r     the rest, once the key request returned with r *)
+Inductive keyreq := ReqOk (k : key) | ReqFail.
+
+Definition rolls (g : N) : bool := N.leb 65535 (g + 1).
+
+Definition event_begin (i : bytes) (g : N) : list op :=
+  if rolls g then [OUpdate i g] else [OUpdate i g; OUpdate i (g + 1)].
+
+Definition event_end (i : bytes) (g : N) (r : keyreq) : list op :=
+  if rolls g then
+    match r with
+    | ReqOk k' => [OSetKey i k'; OUpdate i 1]      (* key first, then the number *)
+    | ReqFail => []
+    end
+  else [].
+
 (* ---- outside the property's quantifier: the plain (type 0x06) advertisement ----
    A well-formed regular advertisement for id i with an unchanged config number
    replaces the description, hence the stored state number, by the advertised one
